@@ -9,6 +9,9 @@ CLAIMED = {
     "C08": ("Lean 4 theorems by mutual induction over the type grammar (encode errors are DataError only; decode errors are DataError/BufferEmptyError; fuel never exhausted for terminating types; fixed-width types need their width; every strict prefix of a valid encoding is rejected; prefix stability) + differential correspondence on out-of-domain values, every truncation point, random bytes",
             "exception-class discipline and termination proved for ALL types and ALL byte strings/values of the model (incl. StructTag, STRINGI, STRINGN); truncation rejection proved for the canonical tail-safe fragment",
             "DESIGN.md §7 C08"),
+    "C15": ("Lean 4 theorems over the path grammar (every alias/number spelling and separator mix yields the CIP route bytes of the hops; shortcuts; four rejection classes, each universally quantified over the rest of the string) + differential correspondence incl. single-edit corruptions",
+            "parse+encode proved equal to an independent CIP port-segment reference for all well-formed routes; odd segments / unknown port name / bad link / bad TCP port proved rejected; arbitrary corruptions by correspondence only (partial)",
+            "DESIGN.md §7 C15"),
     "C07": ("Lean 4 theorems: closed forms of encode/decode (wire layout) + decide +kernel over the regenerated type-code table; differential correspondence model vs pycomm3 vs an independent reference codec (exhaustive for 1-2 byte types)",
             "kernel-checked closed forms of the codec model for every width/value (little-endian two's complement, BOOL 00/FF, LSB-first bit strings, string prefixes, padded fixed strings, concatenated arrays, every byte pattern decoded), tied to the code by regenerated tables and differential execution",
             "DESIGN.md §7 C07"),
